@@ -262,7 +262,8 @@ Fixpoint secidx_loop (fuel : nat) (root sec : cfg) (steps : list (nat * nat)) (n
          match getopt_leaf sec name with
          | Some i => {| rs_opt := Some (rev steps, i); rs_index := index; rs_diags := [] |}
          | None => {| rs_opt := None; rs_index := index;
-                      rs_diags := if negb (cflag root CFGF_IGNORE_UNKNOWN) && negb (cflag sec CFGF_KEYSTRVAL)
+                      rs_diags := if negb (cflag root CFGF_IGNORE_UNKNOWN) &&
+                                     negb (match steps with [] => cflag sec CFGF_KEYSTRVAL | _ => false end)
                                   then cfg_diag root "no such option '%s'" else [] |}
          end end in
   match fuel with
